@@ -8,16 +8,16 @@ CHECKS = {
  # id: (technique, level text, level note, design ref)
  "C01": ("runtime monitor: field-wise encode->decode round-trip oracle over generated PDU values (boundary sweep + random), Poison/step-budget hooks",
          "Exploration: every PDU type is driven through IEncode -> IDecode with every field swept over its boundary classes (each-field sweep) and with random assignments; a reflection oracle compares every field, the announced length and the oversize-refusal clause. Held-on-observed, not a proof; the quantifier (all field assignments) is sampled except for the enumerated boundary classes.",
-         "Trusted: Go reflection, the (field name -> spec field) map in spec/wire_tables.json. Known finding: LoginResp trailing-NUL trim (pinned by the suite).", "DESIGN.md §5 C01"),
+         "Trusted: Go reflection, the (field name -> spec field) map in spec/wire_tables.json. Known finding: LoginResp trailing-NUL trim (pinned by the suite). Every case also registers an Echo: the same value is encoded and the same image decoded again after the next case, and both answers must be unchanged.", "DESIGN.md §5 C01, §3 (Echo)"),
  "C02": ("runtime monitor: differential oracle, library codec vs independent table-driven reference codec transcribed from doc/*.pdf, octet-for-octet",
          "Exploration with an independent reference: every generated assignment is encoded by the library and by a reference codec written from the specification tables and compared octet for octet; reference images (optional parameters shuffled) are decoded by the library and compared value for value; the destination-count x body-length grid 0..255^2 of the four submit types is enumerated completely.",
-         "Trusted: the transcription in spec/wire_tables.json (each table cites the document section), the 250-line reference codec. Known findings: SMGP Active_Test_Resp encoder emits a body octet; LoginResp trailing-NUL trim.", "DESIGN.md §5 C02"),
+         "Trusted: the transcription in spec/wire_tables.json (each table cites the document section), the 250-line reference codec. The reference knows the one conditional layout of the documents (SMPP 3.4: no body behind a non-zero command_status for bind_transmitter_resp, bind_receiver_resp, submit_sm_resp). Known findings: SMGP Active_Test_Resp encoder emits a body octet; LoginResp trailing-NUL trim; SMPP error responses encoded with a body (three entries).", "DESIGN.md §5 C02, §6 #25"),
  "C03": ("runtime resource monitors: panic capture, logical step budget (Tick hooks), runtime/metrics allocation delta around every decoder/parser; strict reference parser for the truncated-mandatory clause; thorough tier adds Go native coverage-guided fuzzing whose corpus is re-judged by the same monitors",
-         "Exploration under resource monitors: 57 IDecodes, 5 dispatchers and 45 auxiliary parsers are run on structurally mutated reference images (every truncation point, every length/count field x boundary values, every offset x 5 octet values, trailing garbage 1..16, optional-parameter tail surgery) and on unstructured strings up to 64 KiB; each call is judged for panic, step-budget overrun (hang) and allocation beyond 2 MiB + 64*len; acceptance of an input whose mandatory part is incomplete is judged by an independent strict parser.",
-         "Trusted: runtime/metrics allocation accounting (minimum of three runs), Tick call sites (loops without a hook are covered only by the wall-clock watchdog => inconclusive). DecodeBlocked is exempt from the allocation clause (frame sizes clamped to 1 MiB).", "DESIGN.md §5 C03, §3.3"),
+         "Exploration under resource monitors: 57 IDecodes (fresh and recycled objects), 5 dispatchers and about 50 auxiliary parsers incl. the String()/transform.Reader/transform.Writer entry points of the GSM-7 transformers are run on structurally mutated reference images (every truncation point, every length/count field x boundary values, every offset x 5 octet values, trailing garbage 1..16, optional-parameter tail surgery) and on unstructured strings up to 64 KiB; each call is judged for panic, step-budget overrun (hang) and allocation (cheap counter against 2 MiB + 64*len; whenever it exceeds 24 KiB + 64*len an exact runtime.ReadMemStats measurement, minimum of three, against that tight bound); a GOARCH=386 build of the same monitors runs the quick workload as a second pass (32-bit int); acceptance of an input whose mandatory part is incomplete is judged by an independent strict parser.",
+         "Trusted: runtime allocation accounting, Tick call sites (loops without a hook are covered only by the wall-clock watchdog => inconclusive). DecodeBlocked is exempt from the allocation clause (frame sizes clamped to 1 MiB).", "DESIGN.md §5 C03, §3.3"),
  "C04": ("runtime monitor: sequential cursor model (shadow state) checked after every Codec.Decode / DecodeBlocked step, over generated streams x arrival schedules x injected read faults",
          "Exploration with a shadow model: frame lists (frames 4..64 KiB, bodies salted with plausible prefixes) are delivered under every single cut (and cut pair) for short streams, 1-octet drip and random multi-cut; the blocking extractor is run with a fault (EOF, ErrUnexpectedEOF, custom error) at every stream position; prefixes 0..3 are placed at every frame position. After each call the returned frame, the error and Size() are compared with the cursor model.",
-         "Trusted: the harness ConnReader (documented bufio-like contract). Both CMPPCodec and SMPPCodec.", "DESIGN.md §5 C04"),
+         "Also: one codec value shared by interleaved streams; a failure reported once (timeout-typed) mid-frame with the stream continuing; frames held by the caller re-read later. Trusted: the harness ConnReader (documented bufio-like contract). Both CMPPCodec and SMPPCodec.", "DESIGN.md §5 C04"),
  "C05": ("runtime monitor: round-trip-or-refuse oracle with exact reference encodings (ASCII, UTF-16BE, TS 23.038 GSM-7) over every Unicode scalar value in short contexts and biased random strings; unsupported coding numbers enumerated",
          "Exploration, exhaustive on a sub-space: all 1,112,064 Unicode scalar values alone and in two (thorough: four) contexts through all six codecs, packed GSM-7 characters at every position of 8/9/16-septet frames, random strings biased to each repertoire edge, the eight protocol-level encoder/decoder pairings, all 256 CMPP and -2..300 SMPP coding numbers for the refusal clause.",
          "Trusted: unicode/utf16, spec/gsm7_table.json; Latin-1 and GB18030 repertoires are the upstream x/text tables (only round-trip-or-refuse is judged).", "DESIGN.md §5 C05"),
@@ -26,45 +26,45 @@ CHECKS = {
          "Trusted: reference encoders for ASCII/UCS-2/GSM-7; library codec verdict for Latin-1/GB18030 representability.", "DESIGN.md §5 C06"),
  "C07": ("runtime monitor: size/header/part-count oracle against a greedy whole-character splitter model; exhaustive enumeration of ParseLongSmsContent over all 2^24 6-octet headers and all 2^16 16-bit references",
          "Exploration + exhaustive parser enumeration: every split result of the C06 workload is judged for part sizes, non-empty parts, header octets, part count <= model, refusal beyond 255 parts, and parser/producer agreement; the parser is enumerated over every (ref,total,seq) triple, every 16-bit reference and single-octet near misses.",
-         "Trusted: the greedy model. Between blind count <= 255 < whole-character count either refusal or success is accepted (depends on C14's open finding).", "DESIGN.md §5 C07, §7"),
+         "Trusted: the greedy model. Between blind count <= 255 < whole-character count either refusal or success is accepted (§7).", "DESIGN.md §5 C07, §7"),
  "C08": ("runtime monitor: exhaustive differential oracle against a code-point-keyed TS 23.038 table and a bit-stream definition of septet packing; cross-entry-point agreement monitor",
-         "Exhaustive on the enumerated sub-spaces (all 1,114,112 code points, all 65,536 septet pairs, all septet sequences of length 0..3, all sequences <= 8 (quick 6) over the 7-letter branch alphabet, block-boundary triples for lengths 1..40, single-bit wiring for lengths 0..64) plus random sequences to 2000 septets and arbitrary octets through Unpack; every entry point (function pairs, transformers, codecs, validators) is compared with the reference and with the others.",
+         "Exhaustive on the enumerated sub-spaces (all 1,114,112 code points, all 65,536 septet pairs, all septet sequences of length 0..3, all sequences <= 8 (quick 6) over the 7-letter branch alphabet, block-boundary triples for lengths 1..40, single-bit wiring for lengths 0..64) plus random sequences to 2000 septets and arbitrary octets through Unpack; every entry point (function pairs, transformers, codecs, validators) is compared with the reference and with the others; a stage keeps one encoder/decoder object set per worker and sends sequences of decodable and refused messages through it, into dirty and short destinations, through String(), transform.Reader and transform.Writer.",
          "Trusted: spec/gsm7_table.json written from TS 23.038 (not in doc/), the 15-line bit-stream packer.", "DESIGN.md §5 C08"),
  "C14": ("runtime monitor: per-part reference decoding of split results (each part decoded on its own), concatenation compared with the original",
-         "Exploration: multi-part texts with escape pairs / surrogate pairs / 2- and 4-octet GB18030 characters started at every offset -3..+3 of every part boundary, every multi-unit coding and entry point; each part is decoded alone by the reference decoder. Eight open known findings (generic splitter cuts blindly for UCS-2, GB18030, unpacked GSM-7); packed GSM-7 holds.",
+         "Exploration: multi-part texts with escape pairs / surrogate pairs / 2- and 4-octet GB18030 characters started at every offset -3..+3 of every part boundary, every multi-unit coding and entry point; each part is decoded alone by the reference decoder. (The eight findings this check first recorded were repaired by fix 693af2d.)",
          "Trusted: reference decoders; GB18030 per-part decoding = library decoder + re-encode check.", "DESIGN.md §5 C14, §6 #14"),
  "C09": ("runtime monitor: reference-winner oracle + determinism monitor (shuffled order, duplicates, GOMAXPROCS changes, Yield-hook delays; byte comparison), concurrent stage under the Go race detector; comparator laws enumerated",
          "Exploration: requests (protocol, content around part-count thresholds, non-empty candidate subsets plus invalid numbers, origin coding) judged against min over (parts, documented priority) and repeated 8x (thorough 32x) under perturbation for byte-identical results; the comparator is enumerated over all (coding, parts 1..4) pairs and triples for strict-total-order laws; a -race stage runs Build's goroutines with injected yields.",
          "Trusted: priority ranks transcribed from code comments; a candidate's part count is taken from the library's single-coding entry point (declared exception, DESIGN 5 C09).", "DESIGN.md §5 C09"),
  "C10": ("runtime monitor: pairing-table oracle from the specifications (response type, sequence words, command id) + dispatcher consistency oracle over encoded images and enumerated command ids",
-         "Exploration, exhaustive over the defined command ids: every request/response type x boundary/random sequence numbers (SGIP all three words) x three SMPP bind flavours; each dispatcher on the reference image of every type, on every command id of the const blocks and response-bit twins, and on random ids; constructors and New*Bytes helpers.",
+         "Exploration, exhaustive over the defined command ids: every request/response type x boundary/random sequence numbers (SGIP all three words) x three SMPP bind flavours; each dispatcher on the reference image of every type, on every command id of the const blocks and response-bit twins, and on random ids; constructors and New*Bytes helpers; one dispatch in four forces a boundary class (64 KiB body, 65531-octet parameter, 255 destinations); a second packet of the same command is dispatched while the first result is held.",
          "Trusted: response table in spec/wire_tables.json; SGIP 1.2 §3.4 (all three sequence words repeated).", "DESIGN.md §5 C10, §7"),
  "C11": ("runtime monitor: relay oracle IDecode(b) -> IEncode -> IDecode compared field-wise; canonical images compared bit-for-bit (optional parameters as a set)",
-         "Exploration: canonical images of generated values and reference images mutated to stay parseable (junk after NULs, odd length words, trailing garbage, duplicate tags, 65531..65535-octet optional values, extreme numerics); every accepted input must re-encode and re-decode to the same PDU; a run with fewer than half of the mutated inputs accepted is inconclusive.",
+         "Exploration: canonical images of generated values and reference images mutated to stay parseable (junk after NULs, odd length words, trailing garbage, duplicate tags, 65531..65535-octet optional values, extreme numerics); every accepted input must re-encode and re-decode to the same PDU; a run with fewer than half of the mutated inputs accepted is inconclusive. One relay in six is preceded by an encode that must be refused; one canonical relay in three decodes into a long-lived PDU value per type (a receive loop).",
          "Trusted: reflection extraction; CMPP 2.0 submit 0/0 -> 1/1 normalisation applied once.", "DESIGN.md §5 C11"),
  "C12": ("runtime monitor: result ledger (live object + deep snapshot re-checked after every later operation) with input scribbling, Poison hook on pooled buffers, pool-ownership monitor; 4-goroutine variant under the Go race detector",
-         "Exploration over histories: 1..1000 mixed operations (encode, decode from a scribbled buffer, dispatcher+String, zero-copy frame extraction then refill, split, batch, option containers, text codecs); after each operation the last 64 results are compared with their snapshots; pooled buffers are poisoned at release so a result backed by pooled memory fails at once.",
+         "Exploration over histories: 1..1000 mixed operations (encode, decode from a scribbled buffer, dispatcher+String, zero-copy frame extraction then refill, split, batch with a reused builder, option containers, text codecs from strings and over caller-owned buffers, decode twice into one value, refused encodes); after each operation the last 64 results are compared with their snapshots; pooled buffers are poisoned at release so a result backed by pooled memory fails at once.",
          "Trusted: the hook call sites (Writer.Release, Utf8ToUcs2Pooled); Reader.Bytes()/Codec.Decode views are documented views and not monitored themselves.", "DESIGN.md §5 C12, §3.2"),
  "C13": ("Go race detector over a multi-goroutine mixed workload (handler not installed) + sequential-equivalence oracle + pool-ownership monitor with Yield-hook schedule perturbation",
-         "Sampled schedules: 2..64 goroutines each running its own op list on its own values, worker processes with GOMAXPROCS 1..16; (1) every result equals the same list run alone, (2) zero deduplicated race reports with a library or pool frame in configuration A, (3) ownership monitor silent and >= 2 distinct interleaving fingerprints in configuration B. 'No race observed in N executions', not race freedom.",
+         "Sampled schedules: 2..64 goroutines each running its own op list on its own values, worker processes with GOMAXPROCS 1..16; 20 op kinds incl. images that end early (error text compared) and six texts that several goroutines split at the same time; (1) every result equals the same list run alone, and the last 32 results each goroutine holds are re-read every 16 calls, (2) zero deduplicated race reports with a library or pool frame in configuration A, (3) ownership monitor silent and >= 2 distinct interleaving fingerprints in configuration B. 'No race observed in N executions', not race freedom.",
          "Trusted: the Go race detector; bytebufferpool/sync.Pool implementations.", "DESIGN.md §5 C13, §3.4"),
  "C15": ("runtime monitor: independent MD5 formula from the CMPP/SMGP documents vs library generators, end-to-end verification after encode -> decode, targeted stream of digests containing 0x00",
-         "Exploration: accounts, secrets, timestamps, status codes (boundaries and random) for CMPP 2.0, CMPP 3.0 and SMGP 3.0; a targeted stage keeps only credential sets whose digest has 0x00 first / inside / last (tens of thousands per quick run); the peer's recomputation from decoded fields must equal the decoded authenticator. One open known finding (LoginResp trailing 0x00).",
+         "Exploration: accounts, secrets, timestamps, status codes (boundaries and random) for CMPP 2.0, CMPP 3.0 and SMGP 3.0; a targeted stage keeps only credential sets whose digest has 0x00 first / inside / last (tens of thousands per quick run); the peer's recomputation from decoded fields must equal the decoded authenticator. GenConnectTimestamp under injected clocks that advance between readings; every decoded authenticator verified again after the receive buffer was overwritten. One open known finding (LoginResp trailing 0x00).",
          "Trusted: crypto/md5; formula text in spec/extracted.", "DESIGN.md §5 C15"),
  "C16": ("runtime monitor: reference triplet emitter / strict parser as oracle for both containers and both parsers of each; no-fabrication check on arbitrary byte strings; boundary lengths; step budget",
-         "Exploration: parameter sets (0..32, tags 0..65535, lengths incl. 65531/65535) round-tripped through Bytes/Serialize and all four parsers; well-formed sequences with duplicates for parser agreement; damaged and random byte strings for the no-fabrication clause; value lengths 65529..65540 and 69990..70000 enumerated; Add on nil/empty containers and TP_udhi on short values. ",
+         "Exploration: parameter sets (0..32, tags 0..65535, lengths incl. 65531/65535) round-tripped through Bytes/Serialize and all four parsers; well-formed sequences with duplicates for parser agreement; damaged and random byte strings for the no-fabrication clause; value lengths 65529..65540 and 69990..70000 enumerated; Add on nil/empty containers and TP_udhi on short values; parser inputs are windows of larger buffers; containers a parser returned get a parameter of the harness's own added.",
          "Trusted: the 20-line strict walk.", "DESIGN.md §5 C16"),
  "C17": ("runtime monitor: bit-layout reference (shifts from the CMPP text) + round-trip oracles, every field enumerated over its full range",
-         "Exhaustive per field (gateway: all 2^22 values) x three backgrounds, plus random tuples, boundary bit patterns and random 64-bit ids: CombineMsgID against the reference layout, Split(Combine)=id, Combine(Split)=id, decimal string form 22 digits and parse-back.",
+         "Exhaustive per field (gateway: all 2^22 values) x three backgrounds, plus random tuples, boundary bit patterns and random 64-bit ids: CombineMsgID against the reference layout, Split(Combine)=id, Combine(Split)=id, decimal string form 22 digits and parse-back; call sequences in which strings are kept while other ids are converted and unparsable strings are parsed in between.",
          "Trusted: the shift table transcribed from CMPP §8.3.", "DESIGN.md §5 C17"),
  "C18": ("runtime monitor: constructive oracle — receipts built from a (key,value) list so the expected extraction is known by construction; CMPP status body via the reference layout",
-         "Exploration: all 2^8 key subsets in PRNG permutations, both SMGP spellings (primary, alternative, mixed), values without key tokens but with bare key names, SMGP ids over all octets; every field compared with its expected value (SMGP: cut to the specified width, id in hex).",
+         "Exploration: all 2^8 key subsets in PRNG permutations, both SMGP spellings (primary, alternative, mixed), values without key tokens but with bare key names, SMGP ids over all octets; every field compared with its expected value (SMGP: cut to the specified width, id in hex); the same receipt is extracted again after the next case (Echo).",
          "Trusted: field widths from SMGP 3.0.3 §6.2.63.", "DESIGN.md §5 C18"),
  "C19": ("runtime monitor: arithmetic oracle on the produced 16-character SMPP time, `now` passed explicitly (no wall clock)",
-         "Exploration: unit boundaries +-1 s up to 100 years in both forms, negative/unparsable strings, random durations in every ParseDuration syntax, `now` at leap day, century end, non-UTC zone and random instants 2000..2099; relative: DD*86400+hh*3600+mm*60+ss == floor(d) or an error; absolute: UTC(now+d).",
+         "Exploration: unit boundaries +-1 s up to 100 years in both forms, negative/unparsable strings, random durations in every ParseDuration syntax, `now` at leap day, century end, non-UTC zone and random instants 2000..2099; relative: DD*86400+hh*3600+mm*60+ss == floor(d) or an error; absolute: UTC(now+d); call sequences over a small pool of durations in any order of the two forms; the same calls with the process's time.Local set to seven zones.",
          "Trusted: package time.", "DESIGN.md §5 C19"),
  "C20": ("runtime monitor: shadow model of packet.Writer/Reader compared after every primitive operation, failure injected at every position",
-         "Exploration over histories: write sequences 0..200 over all eight primitives with an oversize fixed string injected at PRNG-chosen positions; after every op Written/Len/Bytes/BytesWithLength/Error are compared with the model; mirrored read sequences over full and truncated images check inverse-ness, sticky first error and zero values after failure.",
+         "Exploration over histories: write sequences 0..200 over all eight primitives with an oversize fixed string injected at PRNG-chosen positions; after every op Written/Len/Bytes/BytesWithLength/Error are compared with the model; mirrored read sequences over full and truncated images check inverse-ness, sticky first error and zero values after failure; C-strings and byte runs up to 5000 octets; every value a read returned is compared again after later reads.",
          "Trusted: the 60-line model.", "DESIGN.md §5 C20"),
 }
 NOT_APPLICABLE = {}
@@ -105,7 +105,7 @@ def main():
                      "kind_free_text": "Go driver/worker binary: deterministic PRNG case lists sharded over worker processes, reference-model oracles, hook handler (step budget, poison, pool ownership, yields), race-log parser"}],
         "checks": checks,
         "not_applicable": na,
-        "notes": "Runtime monitoring only. VERIF_SEED seeds every PRNG (default 1); VERIF_TIER overrides the tier. Exit 0 held / 1 VIOLATION / 2 INCONCLUSIVE. known_findings.json lists recorded defects (KNOWN-FINDING lines) and fix: commits.",
+        "notes": "Runtime monitoring only. VERIF_SEED seeds every PRNG (default 1); VERIF_TIER overrides the tier. Exit 0 held / 1 VIOLATION / 2 INCONCLUSIVE. known_findings.json lists recorded defects (KNOWN-FINDING lines) and fix: commits. C03 (both tiers) and, in the thorough tier, every property without a race stage also run a GOARCH=386 build of the same monitors (VERIF_NO_386=1 switches that off). tools/coverage.sh is an audit of which library statements the workloads execute; it decides nothing.",
     }
     json.dump(m, open(os.path.join(HERE, "MANIFEST.json"), "w"), indent=1, ensure_ascii=False)
     try:
